@@ -340,6 +340,12 @@ func checkC01(c *Case, st *Stats) string {
 			return fmt.Sprintf("result differs from SPEC:\n   got  %s\n   want %s", JSONString(lib.got), JSONString(want))
 		}
 	}
+	if hv := len(c.Path) + len(docText); hv%8 == 5 && len(c.Ints) == 0 {
+		// the same selection in accessor mode: the accessors lead to the values SPEC selects, in order
+		if msg := accessorModeOnDoc(c, c.Document(), res, st); msg != "" {
+			return msg
+		}
+	}
 	if len(c.Docs) > 0 && lib.again != nil {
 		// the document object is given new content in place, then evaluated again
 		if transplantInPlace(doc, c.Docs[0].Build(c.UseNumber)) {
